@@ -35,6 +35,7 @@ type Job struct {
 	TimeoutMs int           // per-query solver timeout
 	Samples   int           // cover witnesses validated natively
 	Replay    string        // "seq" (default) | "none"
+	Params    map[string]int // constants read by the harness through vf.Param
 	Bounds    map[string]any
 	Outside   []string
 	Assumes   []string
@@ -137,6 +138,7 @@ func (r *propRun) explore(j Job) *jobResult {
 		m.MaxCrashes = j.MaxCrashes
 		m.ExploreTears = j.Tears
 		m.Seed = r.seed
+		m.Params = j.Params
 		m.MaxSamples = perWorkerSamples
 		if perWorkerSamples > 0 {
 			m.SampleEvery = 1 + int((r.seed%3+3)%3)
